@@ -8,3 +8,18 @@ def text(t):
 
 def implies(a, b):
     return (not a) or b
+
+
+def letters(n, base, radix):
+    """position n >= 0 as a numeral in the given radix with digits chr(base), chr(base+1), ..."""
+    return (letters(n // radix, base, radix) if n >= radix else '') + chr(base + n % radix)
+
+
+def unfold_letters(n, base, radix):
+    """proof hint: instantiate the defining equation of `letters` at n (always true)"""
+    return True
+
+
+def remaining(it):
+    """items a list iterator has not yielded yet"""
+    return it.__length_hint__()
